@@ -43,7 +43,9 @@ Inductive cstep :=
    afterwards nextOffset and, per registered segment, base / last / size / index entries *)
 | SRestart (sn next : Z) (segs : list (Z * Z * Z * list (Z * Z))).
 
-Record case := mkCase { k_interval : Z; k_requeue : bool; k_start : Z; k_steps : list cstep }.
+(* [k_ext]: the tree under test has fixes/C04-never-cut-inside-index-block.patch (probed by the harness) *)
+Record case := mkCase { k_interval : Z; k_requeue : bool; k_ext : bool; k_start : Z; k_steps : list cstep }.
+Definition variant_of (ext : bool) : variant := if ext then VFull else VFloor.
 
 Definition entries_eqb (es : list ientry) (obs : list (Z * Z)) : bool :=
   list_eqb (fun e p => (fst e =? fst p) && (snd e =? snd p))
@@ -68,7 +70,7 @@ Definition path_ok (l : plog) (o max : Z) (hit : bool) (path : Z) : bool :=
   | None => (path =? 0) && negb hit
   end.
 
-Fixpoint check_steps (l : plog) (hist : list batch) (steps : list cstep) : bool :=
+Fixpoint check_steps (v : variant) (l : plog) (hist : list batch) (steps : list cstep) : bool :=
   match steps with
   | [] => true
   | SOp o next nsegs nflush nbuf :: r =>
@@ -80,14 +82,14 @@ Fixpoint check_steps (l : plog) (hist : list batch) (steps : list cstep) : bool 
                    end in
       (l_next l' =? next) && (zlen (l_segs l') =? nsegs)
       && (zlen (flushing_batches l') =? nflush) && (zlen (l_buffer l') =? nbuf)
-      && check_steps l' hist' r
+      && check_steps v l' hist' r
   | SSeg k data parsed mem base last size :: r =>
       let s := nth (Z.to_nat k) (l_segs l) dummy_seg in
       bytes_eqb (s_data s) data && entries_eqb (s_entries s) parsed && entries_eqb (s_entries s) mem
       && (s_base s =? base) && (s_last s =? last) && (s_size s =? size)
-      && check_steps l hist r
+      && check_steps v l hist r
   | SRead o max hit path x :: r =>
-      res_eqb l hist (read l hit o max) x && path_ok l o max hit path && check_steps l hist r
+      res_eqb l hist (read_gen v true l hit o max) x && path_ok l o max hit path && check_steps v l hist r
   | SRestart sn next segs :: r =>
       let l' := restore l sn in
       (l_next l' =? next)
@@ -96,8 +98,8 @@ Fixpoint check_steps (l : plog) (hist : list batch) (steps : list cstep) : bool 
                      && list_eqb (fun x y => (fst x =? fst y) && (snd x =? snd y)) e1 e2 end)
            (map (fun s => (s_base s, s_last s, s_size s, map (fun e => (ie_off e, ie_pos e)) (s_entries s))) (l_segs l'))
            segs
-      && check_steps l' hist r
+      && check_steps v l' hist r
   end.
 
 Definition check_case (k : case) : bool :=
-  check_steps (init_log (k_interval k) (k_requeue k) (k_start k)) [] (k_steps k).
+  check_steps (variant_of (k_ext k)) (init_log (k_interval k) (k_requeue k) (k_start k)) [] (k_steps k).
